@@ -91,6 +91,7 @@ class PathState:
         self.no_fork = 0           # >0 inside quantifier bodies: a real fork is not allowed
         self.qframes = []          # local case splits of quantifier bodies (merged by the quantifier model)
         self.known = {}            # z3 term id -> list of (frozenset(scope ids), bool): entailed truth values
+        self.reached = set()       # line numbers of return/raise statements reached (reachability cover)
 
     # ---- naming -----------------------------------------------------------------
     def fresh_name(self, base):
